@@ -492,6 +492,8 @@ class Lower:
         if 'BlochError' in qt(tmp) and len(a) >= 3:
             if self.try_label:
                 return [p + '{ bl_throw(%s, %s, %s); goto %s; }' % (self.expr(a[0]), self.expr(a[1]), self.expr(a[2]), self.try_label)]
+            if getattr(self, 'exit_label', None):
+                return [p + '{ bl_throw(%s, %s, %s); goto %s; }' % (self.expr(a[0]), self.expr(a[1]), self.expr(a[2]), self.exit_label)]
             return [p + '{ bl_throw(%s, %s, %s); return %s; }' % (self.expr(a[0]), self.expr(a[1]), self.expr(a[2]), self.ret0)]
         return self.throw_other(tmp, p)
 
@@ -532,6 +534,10 @@ class Lower:
                 tv = self.tmp('ret')
                 out.append(p + '{ %s %s = %s; %s return %s; }' % (self.rt, tv, e, self.prop_stmt(), tv))
                 self.needs_prop = False
+            elif getattr(self, 'exit_label', None):
+                if e is not None:
+                    raise Unsupported('return of a value from a function with scope-exit actions')
+                out.append(p + 'goto %s;' % self.exit_label)
             else:
                 out.append(p + ('return %s;' % e if e is not None else 'return;'))
         elif k == 'IfStmt':
@@ -583,6 +589,8 @@ class Lower:
         """what follows a call that may have raised: leave the function, or jump to the enclosing handler"""
         if self.try_label:
             return 'if (bl_exc) goto %s;' % self.try_label
+        if getattr(self, 'exit_label', None):
+            return 'if (bl_exc) goto %s;' % self.exit_label          # scope-exit actions of the function run on this path too
         return 'if (bl_exc) return %s;' % self.ret0
 
     def ret_expr(self, n):
@@ -599,9 +607,16 @@ class Lower:
         h = ks[1]
         hk = kids(h)
         var = [k for k in hk if k.get('kind') == 'VarDecl']
+        kinds = None        # a handler for a narrower standard exception type catches only raw exceptions of these dynamic kinds
         if var:
             t = qt(var[0])
-            if 'exception' not in t and 'BlochError' not in t:
+            if re.search(r'\bstd::invalid_argument\b', t):
+                kinds = ['BL_STD_INVALID_ARGUMENT']
+            elif re.search(r'\bstd::out_of_range\b', t):
+                kinds = ['BL_STD_OUT_OF_RANGE']
+            elif re.search(r'\bstd::logic_error\b', t):
+                kinds = ['BL_STD_INVALID_ARGUMENT', 'BL_STD_OUT_OF_RANGE']
+            elif 'exception' not in t and 'BlochError' not in t:
                 raise Unsupported('catch of ' + t)
             used = []
             walk(hk[-1], lambda z: used.append(z) if z.get('kind') == 'DeclRefExpr' and z['referencedDecl'].get('id') == var[0].get('id') else None)
@@ -618,6 +633,10 @@ class Lower:
         if only_bloch:
             # catch (BlochError): a raw C++ exception (BL_EXC_STD) is not caught here, it keeps propagating
             out += [p + '  if (bl_exc == BL_EXC_STD) %s' % self.prop_stmt()]
+        if kinds:
+            # catch (const std::invalid_argument&) and the like: a BlochError (a std::runtime_error) and a raw exception of another
+            # dynamic type keep propagating; the unit's throwing models record the dynamic type in bl_exc_kind
+            out += [p + '  if (!(bl_exc == BL_EXC_STD && (%s))) %s' % (' || '.join('bl_exc_kind == ' + k for k in kinds), self.prop_stmt())]
         out += [p + '  bl_exc = 0; bl_exc_line = 0; bl_exc_col = 0;']
         out += self.block(hk[-1], ind + 1)
         out += [p + '  %s_done: ;' % lab, p + '}']
